@@ -173,15 +173,17 @@ class LabelProbabilityInjector(Injector):
             sample_idxs_grouped.extend(cls_idx)
             self._p_distribution.extend(np.ones(cls_idx.shape[0]) * p_individual)
 
-        # if classes skipped, ensure probability distribution adds to 1
-        p_leftover = (1 - sum(self._p_distribution)) / len(self._p_distribution)
-        self._p_distribution = [p + p_leftover for p in self._p_distribution]
+        # an empty window has nothing to resample
+        if len(sample_idxs_grouped) > 0:
+            # if classes skipped, ensure probability distribution adds to 1
+            p_leftover = (1 - sum(self._p_distribution)) / len(self._p_distribution)
+            self._p_distribution = [p + p_leftover for p in self._p_distribution]
 
-        # shuffled sample over window, with replacement, with weights
-        sample_idxs = np.random.choice(
-            sample_idxs_grouped, to_index - from_index, True, self._p_distribution
-        )
-        ret[from_index:to_index] = ret[sample_idxs]
+            # shuffled sample over window, with replacement, with weights
+            sample_idxs = np.random.choice(
+                sample_idxs_grouped, to_index - from_index, True, self._p_distribution
+            )
+            ret[from_index:to_index] = ret[sample_idxs]
 
         # handle data type and return
         ret = self._postprocess(ret)
